@@ -31,6 +31,9 @@ def removes_inputs(spec):
 
 
 def check_pass(p, name, c, spec):
+    from checks.mutators import rebuild
+
+    c = rebuild(c)  # a fresh copy per pass: a pass that corrupts its argument must not poison the next case
     before = circ.snapshot(c)
     try:
         r = passes.apply_spec(spec, c)
